@@ -231,6 +231,14 @@ class ResetInterp:
             if isinstance(v, tuple) and v[0] == 'list':
                 return v[1]
             return None
+        if isinstance(e, ast.Call) and src(e.func) in ('list', 'tuple', 'sorted') and \
+                len(e.args) == 1 and not e.keywords:
+            it = src(e.args[0])
+            if it.endswith(".area.positions()") or it.endswith(".area.positions('all')"):
+                return ListInfo('all', cx.t, text=src(e)[:160])
+            if it.endswith(".area.positions('inside')"):
+                return ListInfo('inside', cx.t, text=src(e)[:160])
+            return self.poslist(e.args[0], cx) if isinstance(e.args[0], ast.Name) else None
         if isinstance(e, ast.ListComp) and len(e.generators) == 1:
             g = e.generators[0]
             it = src(g.iter)
@@ -238,13 +246,21 @@ class ResetInterp:
                 return None
             pv = g.target.id
             kind = None
+            base = None
             if it.endswith(".area.positions()") or it.endswith(".area.positions('all')"):
                 kind = 'all'
             elif it.endswith(".area.positions('inside')"):
                 kind = 'inside'
+            elif isinstance(g.iter, ast.Name):
+                base = self.poslist(g.iter, cx)
+                if base is not None and base.kind in ('all', 'inside', 'floor'):
+                    kind = base.kind
             if kind is None:
                 return None
-            info = ListInfo(kind, cx.t, text=src(e)[:160])
+            info = ListInfo(kind, cx.t if base is None or kind != 'floor' else base.time,
+                            text=src(e)[:160])
+            if base is not None:
+                info.excl_agent, info.excl_cell = base.excl_agent, base.excl_cell
             conds: List[ast.AST] = []
             for c in g.ifs:
                 conds += c.values if isinstance(c, ast.BoolOp) and isinstance(c.op, ast.And) \
@@ -446,7 +462,9 @@ class ResetInterp:
                 cx.env[tg.id] = ('aff', cx.newsym(tg.id, lo, hi if endpoint else hi - 1))
                 return None
         lst = self.poslist(val, cx)
-        if lst is not None and isinstance(tg, ast.Name) and isinstance(val, ast.ListComp):
+        if lst is not None and isinstance(tg, ast.Name) and \
+                isinstance(val, (ast.ListComp, ast.Call)) and not (
+                    isinstance(val, ast.Call) and src(val.func) not in ('list', 'tuple', 'sorted')):
             cx.env[tg.id] = ('list', lst)
             return None
         if isinstance(val, ast.Call) and src(val.func) in ('choices', 'rng.choice'):
